@@ -2,7 +2,7 @@
    Statements only; every theorem is about the definitions GENERATED from
    core/safemath/safe_math.go (Verif.C19_SafeMath.Generated). *)
 From Coq Require Import ZArith Lia.
-From Verif.C19_SafeMath Require Import GoInt Spec Generated Proofs.
+From Verif.C19_SafeMath Require Import GoInt Spec Generated Proofs GeneratedPinned Sweep8.
 Open Scope Z_scope.
 
 (* Widths 8, 16, 32, 64 are instances of [wf] with half >= 2. *)
@@ -58,6 +58,40 @@ Example D19c1 : SafeLeftShift u8 96 2 = ErrOverflow. Proof. reflexivity. Qed.
 Example D19c2 : SafeLeftShift i8 (-1) 1 = Ok (-2). Proof. reflexivity. Qed.
 Example D19c3 : SafeLeftShift i8 (-1) 8 = ErrOverflow. Proof. reflexivity. Qed.
 
+(* Proof by computation over a genuinely finite domain (all 8-bit operand pairs, all 256 shift counts), independent of the
+   width-generic proofs above. *)
+Theorem C19_exhaustive_8bit : forall t, t = u8 \/ t = i8 ->
+  (forall x y, in_range t x -> in_range t y ->
+     SafeAdd t x y = spec_add t x y /\ SafeSub t x y = spec_sub t x y /\
+     SafeMul t x y = spec_mul t x y /\ SafeDiv t x y = spec_div t x y) /\
+  (forall x s, in_range t x -> 0 <= s < 256 -> SafeLeftShift t x s = spec_shl t x s).
+Proof.
+  intros t Ht. destruct (exhaustive_8bit t Ht) as [H2 Hs]. split.
+  - intros x y Hx Hy. specialize (H2 x y Hx Hy). unfold ok2 in H2.
+    repeat (apply Bool.andb_true_iff in H2 as [H2 ?]).
+    repeat split; apply res_eqb_true; assumption.
+  - intros x s Hx Hr. apply res_eqb_true. exact (Hs x s Hx Hr).
+Qed.
+
+(* The pinned code (commit 56b68f6, translated by the same translator: GeneratedPinned.v) violates the property: witnesses. *)
+Theorem C19_refuted_mul_pinned : exists x y, in_range i8 x /\ in_range i8 y /\
+  Pinned.SafeMul i8 x y = Ok (-128) /\ spec_mul i8 x y = ErrOverflow.
+Proof. exists (-1), (-128). cbn. repeat split; try lia; discriminate. Qed.
+
+Theorem C19_refuted_div_pinned : exists x y, in_range i8 x /\ in_range i8 y /\
+  Pinned.SafeDiv i8 x y = Ok (-128) /\ spec_div i8 x y = ErrOverflow.
+Proof. exists (-128), (-1). cbn. repeat split; try lia; discriminate. Qed.
+
+Theorem C19_refuted_shl_pinned :
+  (Pinned.SafeLeftShift u8 96 2 = Ok 128 /\ spec_shl u8 96 2 = ErrOverflow) /\
+  (Pinned.SafeLeftShift i8 (-1) 1 = ErrOverflow /\ spec_shl i8 (-1) 1 = Ok (-2)) /\
+  (Pinned.SafeLeftShift i8 (-1) 8 = Ok 0 /\ spec_shl i8 (-1) 8 = ErrOverflow).
+Proof. repeat split; reflexivity. Qed.
+
+Print Assumptions C19_exhaustive_8bit.
+Print Assumptions C19_refuted_mul_pinned.
+Print Assumptions C19_refuted_div_pinned.
+Print Assumptions C19_refuted_shl_pinned.
 Print Assumptions C19_SafeAdd.
 Print Assumptions C19_SafeSub.
 Print Assumptions C19_SafeMul.
